@@ -496,43 +496,84 @@ func topOf(full string, n int) string {
 func c13Run(c *fw.Ctx) {
 	for _, be := range []string{"mem", "file"} {
 		for _, nm := range fw.Pick(c, []int{3, 0}, []int{3, 0, 2}) {
-			be, nm := be, nm
-			// alphabet of this tier: positions → indices into c13Sigma
-			alpha := make([]int, len(c13Sigma))
-			for i := range alpha {
-				alpha[i] = i
-			}
-			if !c.Thorough() {
-				alpha = c13Quick
-			}
-			tr := func(seq []int) []int {
-				out := make([]int, len(seq))
-				for i, p := range seq {
-					out[i] = alpha[p]
-				}
-				return out
-			}
-			e := &fw.SeqExplorer{
-				C: c, NOps: len(alpha),
-				FullDepth: fw.Pick(c, 2, 3),
-				MaxDepth:  fw.Pick(c, 4, 6),
-				Run: func(pseq []int) (string, bool, bool) {
-					seq := tr(pseq)
-					var key string
-					var ext, nt bool
-					if c.Guard(be, c13Desc(be, nm, seq), func() { key, ext, nt = c13Exec(c, be, nm, seq, false) }) {
-						return "", false, false
-					}
-					if key != "" {
-						key += fmt.Sprintf("|last%d", seq[len(seq)-1])
-					}
-					return key, ext, nt
-				},
-				Desc: func(pseq []int) any { return c13Desc(be, nm, tr(pseq)) },
-			}
-			e.Explore()
+			c13Explore(c, be, nm, false)
 		}
 	}
+	// Start from a non-initial state too: the same search from a session that has already logged
+	// in (prelude USER u, PASS p), so that the depth bound is spent on TRANSACTION-state commands
+	// and external events (e.g. DELE 1, DELE 2, external delete of 1, QUIT).
+	for _, be := range []string{"mem", "file"} {
+		for _, nm := range fw.Pick(c, []int{3}, []int{3, 2}) {
+			c13Explore(c, be, nm, true)
+		}
+	}
+}
+
+var c13Prelude = []int{0, 2} // "USER u", "PASS p"
+
+func c13Explore(c *fw.Ctx, be string, nm int, loggedIn bool) {
+	// alphabet of this tier: positions → indices into c13Sigma
+	alpha := make([]int, len(c13Sigma))
+	for i := range alpha {
+		alpha[i] = i
+	}
+	if !c.Thorough() {
+		alpha = c13Quick
+	}
+	var prelude []int
+	if loggedIn {
+		prelude = c13Prelude
+		// the AUTHORIZATION-state commands are all "unknown command" here; one stands for all
+		var a []int
+		for _, i := range alpha {
+			if i >= 1 && i <= 5 {
+				continue
+			}
+			a = append(a, i)
+		}
+		alpha = a
+		if !c.Thorough() {
+			// quick: the commands that matter in TRANSACTION state, one tier deeper instead
+			alpha = alpha[:0:0]
+			for i, l := range c13Sigma {
+				switch l {
+				case "STAT", "LIST", "UIDL", "RSET", "NOOP", "QUIT", "XY", "DELE 1", "DELE 2", "DELE 99", "RETR 1", "RETR 2",
+					"LIST 1", "UIDL 2", "TOP 1 1", "!deliver", "!extdel 1", "!extdel 2":
+					alpha = append(alpha, i)
+				}
+			}
+		}
+	}
+	full, maxd := fw.Pick(c, 2, 3), fw.Pick(c, 4, 6)
+	if loggedIn && !c.Thorough() {
+		full, maxd = 3, 5
+	}
+	tr := func(seq []int) []int {
+		out := append([]int{}, prelude...)
+		for _, p := range seq {
+			out = append(out, alpha[p])
+		}
+		return out
+	}
+	e := &fw.SeqExplorer{
+		C: c, NOps: len(alpha),
+		FullDepth: full,
+		MaxDepth:  maxd,
+		Run: func(pseq []int) (string, bool, bool) {
+			seq := tr(pseq)
+			var key string
+			var ext, nt bool
+			if c.Guard(be, c13Desc(be, nm, seq), func() { key, ext, nt = c13Exec(c, be, nm, seq, false) }) {
+				return "", false, false
+			}
+			if key != "" {
+				key += fmt.Sprintf("|last%d", seq[len(seq)-1])
+			}
+			return key, ext, nt
+		},
+		Desc: func(pseq []int) any { return c13Desc(be, nm, tr(pseq)) },
+	}
+	e.Explore()
 }
 
 func c13Replay(c *fw.Ctx, raw json.RawMessage) {
